@@ -160,6 +160,31 @@ def r5_request_path_never_closes(ctx):
            "%s calls Session::close: one failing request (unreachable destination, SYNACK timeout) tears down the shared session — the tunnels of the other requests on it die and the next request has to dial" % bad[0][0].split("::{closure")[0])
 
 
+def r8_none_only_when_the_scan_found_nothing(ctx):
+    """`None` means "the pool holds no usable session" and makes create_stream dial: once the scan has seen an entry, the only
+    ways on are to return an open session or to scan again.  A look-up that peeks under one guard and takes under another must
+    look again when the entry has gone in between, not answer None while healthy sessions are still pooled."""
+    g = co(ctx, "R13.8", POOL + "get_idle_session")
+    if g is None:
+        return
+    cfg, conds = ctx.cfg(g), ctx.conds(g)
+    SCAN = ("BTreeMap::last_key_value", "BTreeMap::first_key_value", "BTreeMap::pop_last", "BTreeMap::pop_first", "BTreeMap::last_entry", "BTreeMap::first_entry",
+            "BTreeMap::keys", "BTreeMap::iter", "BTreeMap::values")
+    scan = calls_norm(g, *SCAN)
+    some_e, fe = [], []
+    for c in conds.all():
+        if c.kind == "variant" and any(is_call_term(s_, *SCAN) for s_ in subterms(c.term)) and not any(is_call_term(s_, "BTreeMap::remove") for s_ in subterms(c.term)):
+            some_e += c.edges_for("Some")
+        if c.kind == "bool" and is_call_term(c.term, "Session::is_closed"):
+            fe += c.edges_for(False)
+    if not scan or not some_e or not fe:
+        return      # other shapes are covered by R13.3 only
+    ok, p = cfg.must_pass([e[1] for e in some_e], g.return_blocks(), via_blocks=[c.bb for c in scan], via_edges=fe)
+    ctx.ob("R13.8", "get_idle_session:none-only-when-the-scan-found-nothing", ok, scan[0].site, "after the scan has seen an entry the function either returns an open session or scans again" if ok else
+           "after the scan has seen an entry get_idle_session can still return without an open session and without scanning again (the entry had been taken by a concurrent look-up between the peek and the removal): "
+           "create_stream reads that as an empty pool and dials a new TLS connection while healthy idle sessions stay unused", path=None if ok else render_path(g, p))
+
+
 def run(ctx):
     from . import C20 as _C20t
     _C20t.r12_subtractions(ctx, _C20t.input_reachable(ctx))   # no subtraction (sizes, Durations) that can underflow and kill the task that computes it
@@ -185,6 +210,10 @@ def run(ctx):
             ctx.missing("R13.1", "match on get_idle_session in create_stream")
     r3_skip_closed(ctx)
     r3b_open_entry_is_returned(ctx)
+    r8_none_only_when_the_scan_found_nothing(ctx)
+    from . import C09 as _C09c
+    _C09c.r12_close_is_never_cancelled(ctx)   # a session the pool forgets is really shut down: a cancelled close() leaves its TLS connection open for good, outside every bound
+    _C09c.r3_recv_exits(ctx)    # a session whose receive task has ended says so (is_closed): get_idle_session skips it instead of handing a dead session to the next request
     r7_pool_config_is_what_was_given(ctx)
     r6_dialled_session_is_pooled(ctx)
     r4_pool_keys(ctx)
